@@ -30,11 +30,14 @@ pub enum SeqMode {
 
 #[derive(Clone, Debug, Serialize, Deserialize, PartialEq)]
 pub enum Op {
-    Syn { f: u8, flags: u16, seq: u32 },
+    Syn { f: u8, flags: u16, seq: u32, #[serde(default)] pay: Option<Pay> },
     Data { f: u8, ack: AckMode, seq: SeqMode, pay: Pay, extra: u16, opt_words: u8 },
     FinAck { f: u8, seq: u32, ack: u32 },
     Ack { f: u8, seq: u32, ack: u32 },
     Rst { f: u8, seq: u32 },
+    /// bare ACK / RST / FIN|ACK whose acknowledgement number is related to the flow's cookie
+    /// (the segment that completes a three-way handshake is a bare ACK with ack = cookie+1)
+    Bare { f: u8, flags: u16, seq: u32, ack: AckMode },
     Noise(Step),
 }
 
@@ -64,24 +67,26 @@ fn ack_mode(good: u32) -> impl Strategy<Value = AckMode> {
         1 => Just(AckMode::Zero),
         1 => Just(AckMode::Max),
         2 => any::<u32>().prop_map(AckMode::Rand),
+        2 => (0u8..5).prop_map(AckMode::OtherFlow),
     ]
 }
 
 pub fn op(good: u32, noise: u32, syn: u32) -> impl Strategy<Value = Op> {
     let extra = prop_oneof![6 => Just(0u16), 1 => prop::sample::select(vec![F_URG, F_FIN, F_SYN, F_RST, F_ECE, F_CWR, F_NS]), 1 => (0u16..512).prop_map(|f| f & !(F_PSH | F_ACK))];
     prop_oneof![
-        syn => (0u8..4, (0u16..512), any::<u32>()).prop_map(|(f, fl, seq)| Op::Syn { f, flags: (fl | F_SYN) & !F_ACK, seq }),
-        8 => (0u8..4, ack_mode(good), prop_oneof![4 => Just(SeqMode::Cont), 2 => (0u16..2048).prop_map(SeqMode::NearWrap), 1 => any::<u32>().prop_map(SeqMode::Rand)], small_pay(), extra, prop_oneof![9 => Just(0u8), 1 => 1u8..10])
+        syn => (0u8..5, (0u16..512), any::<u32>(), prop::option::weighted(0.4, small_pay())).prop_map(|(f, fl, seq, pay)| Op::Syn { f, flags: (fl | F_SYN) & !F_ACK, seq, pay }),
+        8 => (0u8..5, ack_mode(good), prop_oneof![4 => Just(SeqMode::Cont), 2 => (0u16..2048).prop_map(SeqMode::NearWrap), 1 => any::<u32>().prop_map(SeqMode::Rand)], small_pay(), extra, prop_oneof![9 => Just(0u8), 1 => 1u8..10])
             .prop_map(|(f, ack, seq, pay, extra, opt_words)| Op::Data { f, ack, seq, pay, extra, opt_words }),
         1 => (0u8..4, any::<u32>(), any::<u32>()).prop_map(|(f, seq, ack)| Op::FinAck { f, seq, ack }),
         1 => (0u8..4, any::<u32>(), any::<u32>()).prop_map(|(f, seq, ack)| Op::Ack { f, seq, ack }),
         1 => (0u8..4, any::<u32>()).prop_map(|(f, seq)| Op::Rst { f, seq }),
+        2 => (0u8..4, prop::sample::select(vec![F_ACK, F_ACK, F_RST, F_FIN | F_ACK]), any::<u32>(), ack_mode(4)).prop_map(|(f, flags, seq, ack)| Op::Bare { f, flags, seq, ack }),
         noise => step_noise().prop_map(Op::Noise),
     ]
 }
 
 pub fn case_strategy(maxops: usize, good: u32, noise: u32, syn: u32) -> impl Strategy<Value = Case> {
-    (scenario_quiet(Fam::Any), 2u8..=4, 1024u16..30000, port(), vec(op(good, noise, syn), 1..=maxops)).prop_map(|(scn, nflows, sport, dport, ops)| Case { scn, nflows, sport, dport, ops })
+    (scenario_quiet(Fam::Any), 2u8..=5, 1024u16..30000, port(), vec(op(good, noise, syn), 1..=maxops)).prop_map(|(scn, nflows, sport, dport, ops)| Case { scn, nflows, sport, dport, ops })
 }
 
 pub fn flows_of(c: &Case) -> Vec<Flow> {
@@ -99,8 +104,24 @@ pub fn flows_of(c: &Case) -> Vec<Flow> {
         v.push(Flow { net: n2, sport: c.sport, dport: c.dport });
     }
     v.push(Flow { net: net.clone(), sport: c.sport, dport: c.dport.wrapping_add(1) });
+    // same peer, same ports, another local (destination) address: see cfg_of()
+    let mut n5 = net.clone();
+    n5.sip = other_ip(&net.sip, 1);
+    n5.dmac = c.scn.cfg.mac;
+    v.push(Flow { net: n5, sport: c.sport, dport: c.dport });
+    // put the destination-address sibling second so that small cases have it too
+    v.swap(1, 4);
     v.truncate(c.nflows as usize);
     v
+}
+
+/// the case's configuration with the sibling destination address added to the self-IP list
+pub fn cfg_of(c: &Case) -> Cfg {
+    let mut cfg = c.scn.cfg.clone();
+    if let Some(l) = &mut cfg.self_ips {
+        l.push(other_ip(&c.scn.net.sip, 1));
+    }
+    cfg
 }
 
 pub struct Mode {
@@ -111,7 +132,8 @@ pub struct Mode {
 pub fn run_case(c: &Case, st: &mut Stats, mode: &Mode) -> Check {
     Sut::reset();
     st.eval();
-    let sut = Sut::new(&c.scn.cfg);
+    let cfg = cfg_of(c);
+    let sut = Sut::new(&cfg);
     let flows = flows_of(c);
     let n = flows.len();
     let mut cookies = Vec::new();
@@ -148,9 +170,13 @@ pub fn run_case(c: &Case, st: &mut Stats, mode: &Mode) -> Check {
                     return Err(Failure::keyed(p.key(), format!("panic in noise step: {} {}", p.file, p.msg)));
                 }
             }
-            Op::Syn { f, flags, seq } => {
+            Op::Syn { f, flags, seq, pay } => {
                 let fi = *f as usize % n;
-                let fr = tcp_frame(&flows[fi].net, &TcpH::new(flows[fi].sport, flows[fi].dport, *seq, 0, *flags), &[]);
+                let pb = pay.as_ref().map(|p| p.bytes(true)).unwrap_or_default();
+                if !pb.is_empty() {
+                    st.class("op:syn-with-payload");
+                }
+                let fr = tcp_frame(&flows[fi].net, &TcpH::new(flows[fi].sport, flows[fi].dport, *seq, 0, *flags), &pb);
                 let out = sut.frame(&fr);
                 st.class("op:syn");
                 unvalidated_frames += 1;
@@ -169,6 +195,7 @@ pub fn run_case(c: &Case, st: &mut Stats, mode: &Mode) -> Check {
                     AckMode::Zero => 0,
                     AckMode::Max => 0xffff_ffff,
                     AckMode::Rand(r) => *r,
+                    AckMode::OtherFlow(g) => cookies[*g as usize % n].wrapping_add(1),
                 };
                 let p = pay.bytes(true);
                 let sq = match seq {
@@ -257,6 +284,39 @@ pub fn run_case(c: &Case, st: &mut Stats, mode: &Mode) -> Check {
                     }
                 }
             }
+            Op::Bare { f, flags, seq, ack } => {
+                let fi = *f as usize % n;
+                let cookie = cookies[fi];
+                let ackno = match ack {
+                    AckMode::Good => cookie.wrapping_add(1),
+                    AckMode::Cookie => cookie,
+                    AckMode::Plus2 => cookie.wrapping_add(2),
+                    AckMode::Zero => 0,
+                    AckMode::Max => 0xffff_ffff,
+                    AckMode::Rand(r) => *r,
+                    AckMode::OtherFlow(g) => cookies[*g as usize % n].wrapping_add(1),
+                };
+                let out = sut.frame(&flows[fi].seg(*seq, ackno, *flags, &[]));
+                st.class(&format!("op:bare:{}:{}", match *flags { x if x == F_ACK => "ack", x if x == F_RST => "rst", _ => "fin-ack" }, if ackno == cookie.wrapping_add(1) { "ack=cookie+1" } else { "other-ack" }));
+                unvalidated_frames += 1;
+                if let Out::Panic(p) = &out {
+                    return Err(Failure::keyed(p.key(), format!("panic on bare segment: {} {}", p.file, p.msg)));
+                }
+                if mode.check_replies {
+                    if *flags == (F_FIN | F_ACK) {
+                        let r = match &out {
+                            Out::Reply(r) => r,
+                            other => vfail!("bare FIN|ACK not answered: {}", other.brief()),
+                        };
+                        let d = decode_reply(r).map_err(Failure::new)?;
+                        let t = d.tcp().ok_or_else(|| Failure::new("reply to FIN|ACK is not TCP"))?;
+                        vensure!(t.flags == F_FIN | F_ACK && t.payload.is_empty(), "reply to FIN|ACK has flags {:#x} and {} payload bytes", t.flags, t.payload.len());
+                        vensure!(t.ack == seq.wrapping_add(1) && t.seq == ackno, "FIN|ACK reply seq {:#x} ack {:#x}, expected {:#x} / {:#x}", t.seq, t.ack, ackno, seq.wrapping_add(1));
+                    } else if let Out::Reply(r) = &out {
+                        vfail!("op #{}: bare {} with acknowledgement {:#x} (cookie {:#x}) answered: {}", k, if *flags == F_ACK { "ACK" } else { "RST" }, ackno, cookie, hex(r));
+                    }
+                }
+            }
             Op::Rst { f, seq } => {
                 let fi = *f as usize % n;
                 let out = sut.frame(&flows[fi].seg(*seq, 0, F_RST, &[]));
@@ -293,11 +353,12 @@ pub fn run_case(c: &Case, st: &mut Stats, mode: &Mode) -> Check {
 
 fn op_name(o: &Op) -> String {
     match o {
-        Op::Syn { f, flags, .. } => format!("syn(f{},{:#x})", f, flags),
+        Op::Syn { f, flags, pay, .. } => format!("syn(f{},{:#x},{}B)", f, flags, pay.as_ref().map(|p| p.bytes(true).len()).unwrap_or(0)),
         Op::Data { f, ack, pay, extra, .. } => format!("data(f{},{:?},{}B,extra={:#x})", f, ack, pay.bytes(true).len(), extra),
         Op::FinAck { f, .. } => format!("fin-ack(f{})", f),
         Op::Ack { f, .. } => format!("ack(f{})", f),
         Op::Rst { f, .. } => format!("rst(f{})", f),
+        Op::Bare { f, flags, ack, .. } => format!("bare(f{},{:#x},{:?})", f, flags, ack),
         Op::Noise(s) => format!("noise({})", s.kind()),
     }
 }
